@@ -1,0 +1,7 @@
+//go:build !verif
+
+package frugal
+
+func verifHook(point string, obj interface{}, id uint64, n int) {}
+
+func verifOpID(ctx FContext) uint64 { return 0 }
